@@ -392,3 +392,38 @@ func VerifC02_IntTexts() {
 		vReach("rejected")
 	}
 }
+
+// An attached value of ANY shape (it may start with `=`) reaches a list or a
+// map option verbatim, in the long and in the one-dash spelling.
+func VerifC02_AttachedRaw() {
+	mode := vInt("mode", 0, 1)
+	oneDash := vBool("onedash")
+	isMap := vBool("map")
+	v := vString("v")
+	vAssume(v != "")
+	opt := New()
+	setMode(opt, mode)
+	pl := opt.StringSlice("l", 1, 1)
+	pm := opt.StringMap("m", 1, 1)
+	dash := "--"
+	if oneDash {
+		dash = "-"
+	}
+	vPhase("run")
+	var args []string
+	if isMap {
+		args = []string{dash + "m=k=" + v}
+	} else {
+		args = []string{dash + "l=" + v}
+	}
+	remaining, err := opt.Parse(args)
+	vObserve("err", err != nil)
+	vAssert("attached-raw/no-error", err == nil)
+	vAssert("attached-raw/remaining-empty", len(remaining) == 0)
+	if isMap {
+		vAssert("attached-raw/map", len(pm) == 1 && pm["k"] == v)
+	} else {
+		vAssert("attached-raw/list", eqStrs(*pl, []string{v}))
+	}
+	vReach("stored")
+}
